@@ -112,6 +112,12 @@ def cell_matches(text, v, token):
 	if v is None:
 		return text == "None"
 	if isinstance(v, bool):
+		if token.startswith(("float", "complex", "int")):
+			# a bool kept in a numeric column: shown as itself or as the number it is there - never as something that is neither (True.0)
+			try:
+				return text == str(v) or float(text) == float(v)
+			except ValueError:
+				return False
 		return text == str(v)
 	if isinstance(v, float) or token.startswith("float"):
 		try:
@@ -367,6 +373,17 @@ def run_total(chk, spec):
 	setup_limits(spec)
 	try:
 		kind = spec["obj"]
+		if spec.get("factory") == "unprintable":
+			# objects whose text cannot be produced at all
+			class NoText:
+				def __str__(self):
+					raise RuntimeError("no text")
+				__repr__ = __str__
+			spec = dict(spec)
+			if kind == "vector":
+				spec["values"] = [NoText(), NoText()] if spec.get("what") == "unprintable-only" else [NoText(), 1, "a"]
+			else:
+				spec["cols"] = [[NoText(), 1], [2, 3]]
 		if kind == "vector":
 			o = call(lambda: Vector(list(spec["values"]), name=spec.get("name")))
 		elif kind == "table":
@@ -391,8 +408,35 @@ def run_total(chk, spec):
 	finally:
 		display.set_repr_rows(None)
 
+def run_int_limit(chk, spec):
+	"""repr never raises - also when the interpreter's int-to-str digit limit was LOWERED after the library was imported (sys.set_int_max_str_digits, the
+	documented hardening knob) and a stored int lies between the new and the old limit"""
+	import sys
+	digits = spec["digits"]
+	big = 10 ** (digits - 1) + 7
+	objs = {
+		"int-vector": lambda: Vector([big, 1, -big]), "float-column-holding-int": lambda: Vector([1.5, big]), "table": lambda: Table({"a": [big, 2], "b": ["x", "y"]}),
+		"row": lambda: Table({"a": [big, 2], "b": [1, 2]})[0], "object-vector": lambda: Vector([big, "a"]), "tuple-cell": lambda: Vector([(big,), (1,)]), "named": lambda: Vector([1, 2], name=big),
+		"nullable": lambda: Vector([big, None]),
+	}
+	built = call(objs[spec["what"]])
+	if not built.ok:
+		chk.skip("int-limit-construction-refused")
+		return
+	old = sys.get_int_max_str_digits()
+	try:
+		sys.set_int_max_str_digits(spec["limit"])
+		r = call(repr, built.value)
+		ok, exc = r.ok, (type(r.exc).__name__ if not r.ok else None)
+	finally:
+		sys.set_int_max_str_digits(old)
+	chk.sigs.add(repr(("int-limit", spec["what"], spec["limit"], digits)))
+	chk.judged("total", ("int-limit", spec["what"], spec["limit"], digits)) if hasattr(chk, "judged") else None
+	if not ok:
+		chk.fail("repr never raises", f"repr/raises/int-digit-limit-lowered/{spec['what']}/{exc}", f"{spec!r}: with sys.set_int_max_str_digits({spec['limit']}) after import, repr of a {spec['what']} holding an int of {digits} digits raised {exc}")
 
-RUNNERS = {"str_cells": run_str_cells, "strsub": run_strsub, "vector_truth": run_vector_truth, "table_truth": run_table_truth, "total": run_total}
+
+RUNNERS = {"int_limit": run_int_limit, "str_cells": run_str_cells, "strsub": run_strsub, "vector_truth": run_vector_truth, "table_truth": run_table_truth, "total": run_total}
 RUNNERS["recompute"] = recompute.runner("C20")
 
 SIMPLE = {
@@ -400,6 +444,8 @@ SIMPLE = {
 	"float": [0.5, -2.25, 3.0, 1e10, 0.125, -0.0],
 	"str": ["a", "bc", "Zed", "x_1", "é"],
 	"bool": [True, False],
+	"float-holding-bools-and-ints": [1.5, True, False, 2, -0.5, True],
+	"int-holding-bools": [3, True, False, 7],
 	"date": [V.D0, date(2021, 2, 28), date(1999, 12, 31)],
 	# kinds beyond the built-in scalars keep their own class as dtype; Ellipsis is an ordinary value of an object column
 	"Decimal": [_Dec("1.5"), _Dec("0"), _Dec("-2.25")],
@@ -431,6 +477,9 @@ def run(chk):
 	recompute.add_cases(chk, "C20")
 	rng = chk.rng
 	chk.observers.append(total)
+	for what in ("int-vector", "float-column-holding-int", "table", "row", "nullable"):
+		for limit, digits in ((640, 800), (640, 4000), (1000, 1001), (0, 5000)):
+			chk.case("int_limit", {"what": what, "limit": limit, "digits": digits}, "int-limit")
 	limits = [None, 2, 4, 6, 20] + ([] if chk.quick() else [3, 7, 13])
 	# ---- truthfulness: vectors
 	for limit in limits:
@@ -517,6 +566,14 @@ def run(chk):
 	for vals, what in (([10 ** 5000, 1], "int-beyond-str-limit"), ([-(10 ** 5000)], "negative-int-beyond-str-limit"), ([1.5, 10 ** 400], "huge-int-in-float"), ([1.5, 10 ** 5000, None], "huge-int-in-float-beyond-str-limit"), ([10 ** 400, 1j], "huge-int-in-complex")):
 		chk.case("total", {"obj": "vector", "values": vals, "name": None, "what": what}, "total-huge-int")
 		chk.case("total", {"obj": "table", "cols": [vals, list(range(len(vals)))], "names": ["a", "b"], "what": what + "-table"}, "total-huge-int")
+	big = 10 ** 5000
+	for vals, what in (([big, "a"], "huge-int-in-object-column"), ([(big,), (1,)], "huge-int-in-tuple-cell"), ([{big}, {1}], "huge-int-in-set-cell"), ([{"k": big}, {}], "huge-int-in-dict-cell"), ([big, 1j], "huge-int-in-complex-beyond-str-limit"), ([[big], [1, 2]], "huge-int-in-list-cell"), ([big, None, "a"], "huge-int-in-nullable-object-column")):
+		chk.case("total", {"obj": "vector", "values": vals, "name": None, "what": what}, "total-huge-int")
+		chk.case("total", {"obj": "table", "cols": [vals, list(range(len(vals)))], "names": ["a", "b"], "what": what + "-table"}, "total-huge-int")
+	chk.case("total", {"obj": "vector", "values": [1, 2], "name": big, "what": "huge-int-as-name"}, "total-huge-int")
+	for what in ("unprintable-only", "unprintable-mixed"):
+		chk.case("total", {"obj": "vector", "values": [], "name": None, "what": what, "factory": "unprintable"}, "total-unprintable")
+		chk.case("total", {"obj": "table", "cols": [], "names": ["a", "b"], "what": what + "-table", "factory": "unprintable"}, "total-unprintable")
 	chk.case("total", {"obj": "vector", "values": [], "name": None, "what": "empty"}, "total-empty")
 	chk.case("total", {"obj": "vector", "values": [], "name": "nm", "what": "empty-named"}, "total-empty")
 	chk.case("total", {"obj": "vector", "values": [None, None], "name": None, "what": "all-none"}, "total-empty")
